@@ -56,7 +56,7 @@ def run(ctx):
         d = common.write_ruleset(os.path.join(common.scratch_dir('rules'), f'prt{i % 10}'), spec)
         lower = rng.random() < 0.3
         try:
-            r = corr_pq.run_case(d, {'skip_case': lower, 'folder': 'Prince'}, rng, ncuts=0)
+            r = corr_pq.run_case(d, {'skip_case': lower, 'folder': 'Prince'}, rng, ncuts=0, spec=spec)
         except Exception as e:
             viol.append({'property': 'C17', 'kind': 'load-raised', 'error': repr(e)[:200], 'witness': {'spec': spec}})
             continue
@@ -72,13 +72,15 @@ def run(ctx):
         spec = prince_spec(rng)
         name = f"pr{i % 6}"
         d = common.install_ruleset(spec, name)
-        for lower in ([False, True] if not ctx.quick else [rng.random() < 0.4]):
+        # the first rulesets are run under both settings one after the other on the same installed directory (anything a run leaves
+        # behind in the ruleset must not leak into the next run with the other setting), both orders
+        for lower in ([False, True] if (not ctx.quick or i == 0) else ([True, False] if i == 1 else [rng.random() < 0.4])):
             try:
                 pcfg = common.load_grammar(d, skip_case=lower, folder='Prince')
             except Exception as e:
                 viol.append({'property': 'C17', 'kind': 'load-raised', 'error': repr(e)[:200], 'witness': {'spec': spec}})
                 continue
-            r = corr_pq.run_case(d, {'skip_case': lower, 'folder': 'Prince'}, rng, ncuts=0)
+            r = corr_pq.run_case(d, {'skip_case': lower, 'folder': 'Prince'}, rng, ncuts=0, spec=spec)
             if r:
                 start = len(ops)
                 ops += r['ops']
